@@ -25,12 +25,12 @@ Definition comment_position (c : comment) : position := {| p_pos := c_pos c; p_l
 Record method_decl := {
   md_name : str; md_pos : position; md_sig : sig;
   md_param_pos : list position; md_result_pos : list position;
-  md_chain : list N;
+  md_chain : list (N * str);
 }.
 
 Record iface_decl := {
   if_name : str; if_pos : position; if_in_src : bool;
-  if_chain : list N;                   (* doc lookup chain: node ids, innermost first *)
+  if_chain : list (N * str);           (* doc lookup chain: (node id, node kind), innermost first *)
   if_fieldlists : list (N * N);        (* (Pos, Closing) of every FieldList of the enclosing GenDecl, Inspect order *)
   if_methods : list method_decl;
 }.
@@ -160,16 +160,19 @@ Definition dec_position (e : sexp) : option position :=
   match e with SList [a; b; c] => dec_position3 a b c | _ => None end.
 
 Definition dec_nums (e : sexp) : option (list N) := let? l := list_of e in map_opt num_of l.
+Definition dec_chain (e : sexp) : option (list (N * str)) :=
+  let? l := list_of e in
+  map_opt (fun x => match x with SList [a; Atom k] => let? n := num_of a in Some (n, k) | _ => None end) l.
 
 Definition dec_method_decl (e : sexp) : option method_decl :=
   match e with
   | SList [Atom n; a; b; c; sg; SList pp; SList rp; ch] =>
       let? pos := dec_position3 a b c in let? sg := dec_sig_top sg in
       let? pp := map_opt dec_position pp in let? rp := map_opt dec_position rp in
-      let? ch := dec_nums ch in
+      let? ch := dec_chain ch in
       Some {| md_name := n; md_pos := pos; md_sig := sg; md_param_pos := pp; md_result_pos := rp; md_chain := ch |}
   | SList [Atom n; a; b; c; sg; ch] =>      (* method object without a signature *)
-      let? pos := dec_position3 a b c in let? sg := dec_sig_top sg in let? ch := dec_nums ch in
+      let? pos := dec_position3 a b c in let? sg := dec_sig_top sg in let? ch := dec_chain ch in
       Some {| md_name := n; md_pos := pos; md_sig := sg; md_param_pos := []; md_result_pos := []; md_chain := ch |}
   | _ => None
   end.
@@ -180,7 +183,7 @@ Definition dec_pair_nums (e : sexp) : option (N * N) :=
 Definition dec_iface (e : sexp) : option iface_decl :=
   match e with
   | SList [Atom n; a; b; c; ins; ch; SList fls; SList ms] =>
-      let? pos := dec_position3 a b c in let? ins := bool_of ins in let? ch := dec_nums ch in
+      let? pos := dec_position3 a b c in let? ins := bool_of ins in let? ch := dec_chain ch in
       let? fls := map_opt dec_pair_nums fls in let? ms := map_opt dec_method_decl ms in
       Some {| if_name := n; if_pos := pos; if_in_src := ins; if_chain := ch; if_fieldlists := fls; if_methods := ms |}
   | _ => None
